@@ -64,6 +64,7 @@ structure St where
   sess : HashMap String Sess := {}
   vtab : HashMap String Bool := {}                -- "vid msg sig" -> verdict of the real verifier
   stats : HashMap String Nat := {}
+  lreqs : Array (String × List String) := #[]       -- pending LR records (session id, tokens)
   lastPBW : Option String := none                 -- what the last written body must parse to
   nOK : Nat := 0
   nDiv : Nat := 0
